@@ -168,7 +168,6 @@ def families(quick):
         ("two", 2, ("fX", "fY", "lX"), "mid"),
         ("two-kinds5", 2, ("fX", "fY", "xX", "lX", "g1"), "lean"),  # 641 listings
         ("three", 3, ("fX", "fY"), "cube"),  # 401 listings
-        ("three-types", 3, ("fX", "lX"), "lean"),  # 401 listings
         ("similar", 2, ("fX", "fZ", "fY"), "similar"),  # 241 listings
     ]
 
@@ -693,8 +692,7 @@ def classify(got, exp_recs, exp_unch, ia, ib, it, cts, wu, filters, allow_rename
                 got_files[p] = (o, n)
         for p in sorted(exp_files):
             if p not in got_files:
-                o, n = exp_files[p]
-                return "applied-diff-differs-from-second-tree:missed-" + gt.status(o, n)
+                return "applied-diff-differs-from-second-tree:missed-change"
         for p in sorted(got_files):
             if p not in exp_files:
                 return "applied-diff-differs-from-second-tree:spurious-change"
@@ -791,6 +789,10 @@ def eval_pair(acc, st, cfg, ia, ib, gitres, k):
     def viol(area, site, flags, pred, msg):
         cls = (area, site, pred)
         if cls in reported:
+            return
+        if site == "RenameDetector" and ("diff", "tree_changes", pred) in reported:
+            # RenameDetector starts from tree_changes: the same predicate on the same pair is a consequence
+            acc.count("rename_violations_explained_by_the_plain_diff")
             return
         reported[cls] = flags
         acc.violation("%s:%s(%s):%s" % (area, site, flags, pred), "A=%s B=%s: %s" % (show(A), show(B), msg), rp(case_pair, impl, _S["cfgname"], A, B))
